@@ -143,7 +143,9 @@ def main():
         },
         "engines": [
             {"name": "vcheck", "path": "harness/", "serves_properties": [c["property_id"] for c in checks],
-             "kind_free_text": "Rust binary linking the /repo crates by path; proptest TestRunner (fixed seeds, shrinking) + exhaustive index enumerators + reference models; replay files are plain JSON cases"},
+             "kind_free_text": "Rust library + binary linking the /repo crates by path; proptest TestRunner (fixed seeds, shrinking) + exhaustive index enumerators + reference models; replay files are plain JSON cases"},
+            {"name": "vcheck-fuzz", "path": "fuzz/", "serves_properties": ["C03", "C04", "C06", "C07"],
+             "kind_free_text": "cargo-fuzz / libFuzzer targets (built by run.sh for thorough tiers: cargo +nightly fuzz build -s none); each target decodes the fuzzer's bytes into a case of a vcheck driver and runs that driver's oracle in-process; fixed -runs per process, 16 processes; seed corpus fuzz/corpus/<target>/ is also replayed by the quick tiers"},
         ],
         "checks": checks,
         "not_applicable": na,
